@@ -236,7 +236,11 @@ Definition appendInitial (plan : Z * Z) (hdr pnLen plen udpMin : Z) : appres :=
 (** ** the flight *)
 Record cfg := {
   c_dcid : Z; c_scid : Z;            (* connection ID lengths on the wire *)
-  c_ipn : Z;                         (* InitPacketNumber (uint64) *)
+  c_ipn : Z;                         (* InitPacketNumber (uint64): the index base of the length list *)
+  c_first : Z;                       (* the packet number the connection's Initial space is seeded with:
+                                        initialPN(InitPacketNumber) on a first connection, the previous
+                                        connection's next packet number on the one a Dial re-creates after
+                                        Version Negotiation *)
   c_lens : list Z; c_single : Z;     (* InitPacketNumberLengths, InitPacketNumberLength *)
   c_tokLen : Z;                      (* length of the token the packer was given (0: none) *)
   c_bk : bkind;
@@ -248,7 +252,7 @@ Inductive dgres :=
 | DG (pn pnLen hdr : Z) (frames : list (Z * Z)) (lengthField packetLen dgramLen idxAfter : Z) (relPanic : bool)
 | DGErr (cls : Z).   (* 1: does not fit the packet buffer; 2: the builder / flight validation failed *)
 
-Definition pnOf (c : cfg) (i : Z) : Z := initialPN (c_ipn c) + i.
+Definition pnOf (c : cfg) (i : Z) : Z := c_first c + i.
 Definition pnLenOf (c : cfg) (i : Z) : Z := peekPnLen (c_lens c) (c_single c) (pnBase (c_ipn c)) (pnOf c i).
 Definition hdrOf (c : cfg) (i : Z) : Z := hdrLen (c_dcid c) (c_scid c) (c_tokLen c) (pnLenOf c i).
 
